@@ -3,6 +3,7 @@
 -/
 import OptreeModel.Model.Serial
 import OptreeModel.Lemmas.EncInspect
+import OptreeModel.Lemmas.EncTransform
 
 namespace Optree
 
@@ -216,6 +217,26 @@ theorem C08_compose_leaf_rightL : ∀ cs : List STree, STree.substL cs .leaf = c
   | [] => rfl
   | c :: cs => by simp [STree.substL, C08_compose_leaf_right c, C08_compose_leaf_rightL cs]
 end
+
+/-- **`transform` replacing every leaf by the treespec of `b` builds the shape `compose` builds** (left-to-right
+loop with a stack of pending counts; the namespace of the outer treespec is kept) -/
+theorem C08_transform_leaf_refines (a b : STree) (ha : a.wf = true) (nil : Bool) (ns nsb : String)
+    (hnsb : nsb = ns ∨ nsb = "") :
+    transform (a.spec nil ns) Option.none (some fun _ => .ok (b.spec nil nsb)) = .ok ((a.subst b).spec nil ns) :=
+  transform_enc a b ha nil ns nsb hnsb
+
+/-- ... and therefore equals `compose` whenever the latter keeps the outer namespace -/
+theorem C08_transform_leaf_is_compose (a b : STree) (ha : a.wf = true) (nil : Bool) (ns : String) :
+    transform (a.spec nil ns) Option.none (some fun _ => .ok (b.spec nil ns)) =
+      compose (a.spec nil ns) (b.spec nil ns) := by
+  rw [C08_transform_leaf_refines a b ha nil ns ns (Or.inl rfl),
+    compose_enc a b ha nil ns ns (by simp [nsCompatible])]
+  simp [mergeNs]
+
+/-- **`transform` with a leaf function that returns the leaf treespec (the identity) is the identity** -/
+theorem C08_transform_id (a : STree) (ha : a.wf = true) (nil : Bool) (ns : String) :
+    transform (a.spec nil ns) Option.none (some fun _ => .ok (STree.leaf.spec nil ns)) = .ok (a.spec nil ns) := by
+  rw [C08_transform_leaf_refines a .leaf ha nil ns ns (Or.inl rfl), C08_compose_leaf_right a]
 
 /-- non-vacuity: sibling sub-trees of sizes 1, 3, 2 -/
 def C08_demo : STree :=
